@@ -1,4 +1,5 @@
 """C20 — violation messages are deterministic and bounded."""
+import builtins
 import ast
 import json
 import os
@@ -316,6 +317,11 @@ def run(w) -> None:
             if bad in keys:
                 w.violation("C20/non-representable-argument-listed/" + bad, "the message lists {} (a class/function/method/module/builtin)".format(bad), case,
                             {"parts": parts})
+        for key in keys:
+            # names which only the builtins module provides (functions, classes and constants such as NotImplemented, Ellipsis, __debug__)
+            if key.isidentifier() and hasattr(builtins, key) and key not in it["params"] and key not in ("result", "OLD", "self"):
+                w.count("filtered_argument_checks")
+                w.violation("C20/builtin-listed", "the message lists the built-in {}".format(key), case, {"parts": parts})
         for reserved in ("_ARGS", "_KWARGS"):
             w.count("filtered_argument_checks")
             if reserved in keys and reserved not in it["lam_params"]:
